@@ -309,5 +309,101 @@ mut("c18-path-add-links-operand", "C18", "path + segment links the operand itsel
         return NotImplemented
 
     def __radd__(self, other):''')
+# ---------------- C10
+mut("c10-only-valueerror-guarded", "C10", "element construction is guarded for ValueError only (a bad transform raises IndexError out of parse)",
+'''                except (
+                    ValueError,
+                    IndexError,
+                    TypeError,
+                    OverflowError,
+                    ZeroDivisionError,
+                ) as e:
+                    # The attributes of this element are in error, it is not rendered.
+                    if on_error == "raise":
+                        raise e
+                    elif on_error == "stop":
+                        return root
+                    continue''',
+'''                except (
+                    ValueError,
+                    OverflowError,
+                    ZeroDivisionError,
+                ) as e:
+                    # The attributes of this element are in error, it is not rendered.
+                    if on_error == "raise":
+                        raise e
+                    elif on_error == "stop":
+                        return root
+                    continue''')
+mut("c10-failed-shape-returns", "C10", "a shape that cannot be built ends the parse (return root) instead of being skipped",
+'''                            if s is None:
+                                # s was not established we continue without it.
+                                continue''',
+'''                            if s is None:
+                                # s was not established we continue without it.
+                                return root''')
+mut("c10-double-pop", "C10", "a skipped element pops the inheritance stack at once and again at its end event (later siblings inherit from the wrong ancestor)",
+'''                    # The attributes of this element are in error, it is not rendered.
+                    if on_error == "raise":
+                        raise e
+                    elif on_error == "stop":
+                        return root
+                    continue
+                # If no root was established, s is root.''',
+'''                    # The attributes of this element are in error, it is not rendered.
+                    if on_error == "raise":
+                        raise e
+                    elif on_error == "stop":
+                        return root
+                    if len(stack) > 2:
+                        values = stack[-2][1]
+                        stack[-1] = stack[-2]
+                    continue
+                # If no root was established, s is root.''')
+mut("c10-dangling-use-raises", "C10", "a use whose target does not exist is no longer tolerated",
+'''                        except KeyError:
+                            pass  # Failed to find link.''',
+'''                        except IndexError:
+                            pass  # Failed to find link.''')
+mut("c10-single-read", "C10", "the structure pass assumes that one read() returns the whole document",
+'''        for event, elem in iterparse(source, events=("start", "end", "start-ns")):''',
+'''        if hasattr(source, "read") and not hasattr(source, "getvalue"):
+            from io import BytesIO, StringIO
+
+            first = source.read(1 << 16)
+            source = BytesIO(first) if isinstance(first, bytes) else StringIO(first)
+        for event, elem in iterparse(source, events=("start", "end", "start-ns")):''')
+mut("c10-percent-base-leaks", "C10", "the percentage base set by an embedded svg is not restored at its end (the pinned tree's defect)",
+'''                context, values, width, height = stack.pop()
+            elif event == "start-ns":''',
+'''                context, values, _w, _h = stack.pop()
+            elif event == "start-ns":''')
+mut("c10-cyclic-use-unbounded", "C10", "use expansion no longer stops at a reference that is being instantiated (the pinned tree's defect)",
+'''                    if url is not None and url[1:] not in active:''',
+'''                    if url is not None:''')
+mut("c10-embedded-zero-svg-returns", "C10", "an embedded svg with a zero-size viewBox ends the parse and is returned as the document (the pinned tree's defect)",
+'''                                if root is None:
+                                    return s  # No more parsing will be done.''',
+'''                                if True:
+                                    return s  # No more parsing will be done.''')
+mut("c10-text-unguarded", "C10", "text elements are built at the end event without the guard",
+'''                        # The attributes of this element are in error, it is not rendered.
+                        s = None
+                        if on_error == "raise":
+                            raise e
+                        elif on_error == "stop":
+                            return root
+                    if s is not None and context is not None:''',
+'''                        # The attributes of this element are in error, it is not rendered.
+                        raise e
+                    if s is not None and context is not None:''')
+mut("c10-bad-fill-poisons-parent", "C10", "a colour that cannot be parsed is written back into the parent's inherited values",
+'''                # All class and attribute properties are compiled.
+                values.update(attributes)''',
+'''                # All class and attribute properties are compiled.
+                if attributes.get(SVG_ATTR_FILL, "").startswith("#") and len(attributes[SVG_ATTR_FILL]) not in (4, 5, 7, 9):
+                    current_values[SVG_ATTR_FILL] = "none"
+                values.update(attributes)''')
+
 json.dump(M, open(os.path.join(HERE, "mutants", "mutants.json"), "w"), indent=1)
 print("wrote", len(M), "mutants")
